@@ -391,6 +391,9 @@ func runSession(prop, tier string, r *rng) {
 		// two calls on ONE client: in the first, peer 0 answers fast and then fails once (a second capable peer completes the
 		// call); in the second, peer 0 is the only one holding the range, is perfectly healthy, and three lagging peers answer
 		// NOT_FOUND. What the first call did to peer 0's score must not starve it.
+		if chunk == 1 {
+			e.scoreClassCases(prop)
+		}
 		if chunk <= 3 {
 			e.twoCallCase(prop, chunk)
 			e.scoredCase(prop, "slowcapable", chunk)
@@ -605,4 +608,45 @@ func (e *p2pEnv) scoredCase(prop, kind string, chunk uint64) {
 		blocked = len(e.lastGater.ListBlockedPeers()) // every peer here is honest: a benign fault must not get one blocked
 	}
 	emit("%s kind=twocalls sub=%s from=%d to=%d chunk=%d first=score%.2f => res=%s err=%s tookms=%d blocked=%d", prop, kind, from, to, chunk, score, r, ec, took.Milliseconds(), blocked)
+}
+
+// scoreClassCases: EVERY sequence of up to 4 outcomes (sub-millisecond success, 3 ms success, NOT_FOUND) booked on one
+// tracked peer by the real updateStats / decreaseScore (hook VerifRecordOutcome): is the float32 score still a finite number?
+func (e *p2pEnv) scoreClassCases(prop string) {
+	ex := e.client(nil, 1, 120*time.Millisecond)
+	defer ex.Stop(context.Background()) //nolint:errcheck
+	id := e.hosts[1].ID()
+	alphabet := []string{"ok0", "ok3", "fail"}
+	var rec func(seq []string)
+	rec = func(seq []string) {
+		if len(seq) > 0 {
+			ex.VerifSetTrackedPeers(id)
+			var sc float32
+			for _, o := range seq {
+				switch o {
+				case "ok0":
+					sc = ex.VerifRecordOutcome(id, 500, 300*time.Microsecond)
+				case "ok3":
+					sc = ex.VerifRecordOutcome(id, 500, 3*time.Millisecond)
+				default:
+					sc = ex.VerifRecordOutcome(id, -1, 0)
+				}
+			}
+			cls := "fin"
+			switch {
+			case sc != sc:
+				cls = "nan"
+			case sc > 3e38 || sc < -3e38:
+				cls = "inf"
+			}
+			emit("%s kind=scoreclass seq=%s => class=%s", prop, strings.Join(seq, ","), cls)
+		}
+		if len(seq) == 4 {
+			return
+		}
+		for _, a := range alphabet {
+			rec(append(append([]string{}, seq...), a))
+		}
+	}
+	rec(nil)
 }
